@@ -286,7 +286,7 @@ def obligations(tier, seed):
         MirOb("c09_fields_all_instants", "compute_gregorian@src/epoch/gregorian.rs", [In("d", "Duration"), In("ts", "TimeScale")], post_fields,
               "compute_gregorian: for EVERY elapsed time (|centuries| <= 30000) and every scale the seven fields are a valid civil date-time whose exact day count and time of day "
               "reproduce the elapsed time (so construction from them returns the identical epoch, C08); first/last nanosecond of every day, every year incl. before 1900 and far from it",
-              "compute_gregorian", pre=pre, probes=probes, ret_shape="greg7", min_paths=20, loop_bound=8, timeout_ms=180000, nprobe=120, feas_timeout_ms=1500,
+              "compute_gregorian", pre=pre, probes=probes, ret_shape="greg7", min_paths=20, loop_bound=8, timeout_ms=180000, nprobe=120, feas_timeout_ms=1500, probe_witness=True,
               modes=("dev",) if tier == "quick" else ("dev", "release"),
               summaries=summaries(), summaries_concrete={"::gregorian_epoch_offset": summary_gregorian_epoch_offset},
               loop_contracts=loop_contracts(), on_loop_failure=on_fail,
